@@ -81,7 +81,7 @@ impl Property for C29 {
     fn run(&self, rc: &mut RunCtx) -> RunOut {
         let mut out = RunOut::default();
         let mut r = rc.rng.fork("w");
-        let work: PathBuf = crate::harness::verif_dir().join("work").join(format!("c29-{}-{}", std::process::id(), rc.idx));
+        let work: PathBuf = crate::harness::verif_dir().join("work").join(format!("c29-{}-{}-{}", rc.tier.name(), rc.seed, rc.idx));
         let _ = std::fs::remove_dir_all(&work);
         let root = work.join("root");
         let outside = work.join("outside");
